@@ -2,11 +2,12 @@
 # usage: confirm_mutants.sh <worktree> <mutdir>...   (each mutdir has patch.diff + demo.diff)
 # Confirms: patch alone keeps the suite green (158), patch+demo fails only in new tests, demo alone passes.
 W=$1; shift
-LOG=/tmp/mut-out/CONFIRM.log
+OUT=${OUT:-/tmp/mut-out}
+LOG=$OUT/CONFIRM.log
 export CARGO_NET_OFFLINE=true
-run() { (cd $W && cargo nextest run --workspace --no-fail-fast --offline 2>&1 | tee /tmp/mut-out/last_nextest.log | grep -E "^\s+Summary|^\s+(FAIL|SIGABRT|SIGSEGV)\b" | sort -u); }
+run() { (cd $W && cargo nextest run --workspace --no-fail-fast --offline 2>&1 | tee $OUT/last_nextest.log | grep -E "^\s+Summary|^\s+(FAIL|SIGABRT|SIGSEGV)\b" | sort -u); }
 for M in "$@"; do
-  name=$(echo $M | sed 's|/tmp/mut-out/||; s|/|-|g')
+  name=$(echo $M | sed "s|$OUT/||; s|/|-|g")
   (cd $W && git checkout -q -- . && git clean -fdq -e target)
   if ! (cd $W && git apply $M/patch.diff); then echo "$name APPLY-PATCH-FAILED" >> $LOG; continue; fi
   r1=$(run)
